@@ -174,6 +174,11 @@ class Peer(object):
         if self.encoding == "gzip" and status == 200 and body:
             payload = gzip.compress(body, mtime=0)
             lines.append("Content-Encoding: gzip")
+        if self.encoding == "gzip-multi" and status == 200 and body:
+            # several gzip members one after the other: a legal gzip stream
+            third = max(1, len(body) // 3)
+            payload = b"".join(gzip.compress(part, mtime=0) for part in (body[:third], body[third:2 * third], body[2 * third:]) if part)
+            lines.append("Content-Encoding: gzip")
         if self.encoding == "chunked" and status == 200 and body and length:
             lines.append("Transfer-Encoding: chunked")
             out = []
